@@ -51,7 +51,7 @@ PRECS = [10, 15, 24, 53, 53, 64, 100, 113, 200, 333, 400, 401, 600, 1000]
 CATALOG_FUNCS = ('exp ln sqrt cbrt sin cos tan atan asin acosh sinh tanh asinh power log1p expm1 cospi sinpi root log10 '
                  'atan2 hypot floor frac fmod '
                  'gamma rgamma loggamma factorial fac2 digamma harmonic beta binomial rf ff psi polygamma barnesg '
-                 'zeta altzeta hurwitz polylog bernpoly eulerpoly siegeltheta siegelz lerchphi primezeta '
+                 'zeta altzeta hurwitz polylog bernpoly eulerpoly siegeltheta siegelz '
                  'erf erfc erfi ncdf ei e1 li si ci shi chi fresnels fresnelc erfinv expint gammainc betainc '
                  'besselj bessely besseli besselk hankel1 struveh struvel ber kei airyai airybi scorergi j0 '
                  'besseljzero airyaizero coulombf angerj lommels1 '
@@ -72,7 +72,7 @@ SPECIAL_FUNCS = ['zeta-rs', 'siegelz-rs', 'zetazero', 'nzeros', 'primepi2', 'qua
 SLOW_SPECIAL = {'quadosc', 'nsum', 'nprod', 'zetazero', 'nzeros', 'secondzeta', 'stieltjes', 'limit', 'invertlaplace', 'zeta-rs',
                 'siegelz-rs', 'pslq', 'identify', 'findpoly', 'chebyfit', 'fourier', 'odefun', 'quad', 'quad-ts', 'meijerg', 'svd',
                 'eig', 'eigh', 'expm', 'findroot', 'diff', 'taylor', 'pade', 'autoprec', 'polyroots'}
-SLOW_CATALOG = {'lerchphi', 'primezeta', 'appellf1', 'coulombf', 'lommels1', 'besseljzero', 'airyaizero', 'ellippi', 'angerj',
+SLOW_CATALOG = {'appellf1', 'coulombf', 'lommels1', 'besseljzero', 'airyaizero', 'ellippi', 'angerj',
                 'legenq', 'barnesg', 'kei', 'ber', 'spherharm', 'pcfw', 'hyp3f2', 'hyp2f0', 'whitw', 'hyperu', 'betainc', 'erfinv',
                 'polylog', 'struveh', 'struvel', 'scorergi', 'siegelz', 'kleinj'}
 
@@ -339,6 +339,7 @@ class World(object):
         self.rec.event('steps followed by the state check of all other contexts')
 
     def begin(self, acting, fn, label):
+        _last['label'] = label
         self.busy = set(acting)
         self.fn, self.label = fn, label
         self.history.append(label)
@@ -461,10 +462,29 @@ def fp_call(c, r, mpmath):
     return table[x], 'fp.%s(%r)' % (x, a), x
 
 
+class CallCapped(BaseException):
+    """safety net: one library call used more than CALL_CAP CPU seconds"""
+
+
+CALL_CAP = {'quick': 8.0, 'thorough': 20.0}
+_cap = {'t': 8.0}
+
+
+def _on_prof(signum, frame):
+    raise CallCapped()
+
+
 def eval_in(w, name, fn, call):
-    """run call() with context `name` acting; -> ('ok', result) or ('exc', type name, message)"""
+    """run call() with context `name` acting; -> ('ok', result) or ('exc', type name, message).
+    A call that exceeds the CPU cap raises CallCapped out of the shard loop: the interrupted library may have left
+    a module-level cache half-updated, so nothing is concluded from this process afterwards."""
+    import signal
+    signal.setitimer(signal.ITIMER_PROF, _cap['t'])
     try:
-        return ('ok', call())
+        try:
+            return ('ok', call())
+        finally:
+            signal.setitimer(signal.ITIMER_PROF, 0)
     except Exception as e:
         return ('exc', type(e).__name__, str(e)[:160])
 
@@ -756,6 +776,22 @@ def run_shard(shard, rec):
                'mpmath.ctx_mp_python:PythonMPContext._set_prec', 'mpmath.ctx_mp_python:PythonMPContext._set_dps',
                'mpmath.ctx_iv:MPIntervalContext._set_prec', 'mpmath.ctx_iv:MPIntervalContext.__init__',
                'mpmath.ctx_mp:MPContext.hypsum', 'mpmath.functions.rszeta:coef', 'mpmath.calculus.quadrature:QuadratureRule.get_nodes']
+    skipped = 0
+    import signal
+    signal.signal(signal.SIGPROF, _on_prof)
+    _cap['t'] = CALL_CAP[tier]
+    try:
+        _run(shard, rec, tier, r, t0, anchors, mpmath)
+    except CallCapped:
+        rec.undecided('a library call exceeded the per-call CPU cap; the rest of the shard was not run', {'last_step': _last.get('label')})
+        rec.event('shards stopped after a capped call')
+
+
+_last = {}
+
+
+def _run(shard, rec, tier, r, t0, anchors, mpmath):
+    from vf.instrument import AnchorCount
     skipped = 0
     with AnchorCount(rec, anchors):
         nh = HISTORIES[tier]
